@@ -1137,6 +1137,82 @@ ctl('f5-inner-map-escapes', 'C09', 'F5', 'models/entity.go',
 """, 'innerOf', 'an unexported getter hands out the live per-type map',
     edits=[dict(file='models/entity.go', old='func (s *EntityComponentStore) ListAll() []*hagallpb.EntityComponent {',
                 new='func (s *EntityComponentStore) innerOf(t uint32) map[uint32]*hagallpb.EntityComponent {\n\tm := s.entityComponents[t]\n\treturn m\n}\n\nfunc (s *EntityComponentStore) ListAll() []*hagallpb.EntityComponent {')])
+# ---- round-2 rules
+for prop in ('C02', 'C04', 'C01'):
+    ctl('b8-accepted-not-applied-' + prop.lower(), prop, 'B8', RT,
+        """	session.GetEntityComponents().DeleteByEntityID(entity.ID)
+	session.RemoveEntity(entity)
+	participant.RemoveEntity(entity)
+
+	respond.Send(&hagallpb.EntityDeleteResponse{""",
+        """	if !entity.Persist {
+		session.GetEntityComponents().DeleteByEntityID(entity.ID)
+		session.RemoveEntity(entity)
+		participant.RemoveEntity(entity)
+	}
+
+	respond.Send(&hagallpb.EntityDeleteResponse{""", 'HandleEntityDelete:accepted-applies',
+        'an explicit delete of a persistent entity is answered with success and not carried out')
+for prop in ('C07', 'C08'):
+    ctl('e9-membership-after-hooks-' + prop.lower(), prop, 'E9', RT,
+        """	h.currentSession = session
+	h.currentParticipant = participant
+
+	h.FeatureFlags.IfNotSet(featureflag.FlagDisableSessionState, func() {""",
+        """	for _, m := range h.Modules {
+		m.Init(session, participant)
+	}
+	h.currentSession = session
+	h.currentParticipant = participant
+
+	h.FeatureFlags.IfNotSet(featureflag.FlagDisableSessionState, func() {""", 'membership-recorded-before-hooks',
+        'module hooks run between AddParticipant and the assignment the disconnect path relies on')
+ctl('g7-timer-drain-blocks', 'C08', 'G7', HD,
+    """			idleTimer.Stop()
+			idleTimer.Reset(idleTimeout)
+""",
+    """			if !idleTimer.Stop() {
+				<-idleTimer.C
+			}
+			idleTimer.Reset(idleTimeout)
+""", 'blocks[Timer.C]', 'textbook timer drain: blocks forever when the tick was already consumed by the select')
+ctl('g7-receipt-queue-blocks', 'C08', 'G7', RT,
+    """	select {
+	case h.ReceiptChan <- payload:""",
+    """	select {
+	case <-ctx.Done():
+		return nil
+	case h.ReceiptChan <- payload:""", 'blocks[RealtimeHandler.ReceiptChan]',
+    'a select without default on the shared receipt queue parks the connection loop while the queue is full',
+    edits=[dict(file=RT, old="""	default:
+		//discard - failsafe if disk is full or whatever""", new="""	case <-h.discardReceipts():
+		//discard - failsafe if disk is full or whatever"""),
+           dict(file=RT, old="func (h *RealtimeHandler) HandleWithModule(", new="func (h *RealtimeHandler) discardReceipts() chan struct{} { return nil }\n\nfunc (h *RealtimeHandler) HandleWithModule(")])
+ctl('s-assets-keyed-by-instance-id', 'C16', 'S-Assets', 'modules/odal/state.go',
+    """	s.assetInstances[ai.EntityId] = ai""",
+    """	s.assetInstances[ai.Id] = ai""", 'SetAssetInstance:keyed')
+ctl('s-assets-second-writer', 'C16', 'S-Assets', 'modules/odal/state.go',
+    """func (s *State) RemoveAssetInstance(entityID uint32) {""",
+    """func (s *State) PutAssetInstance(id uint32, ai *odalpb.AssetInstance) {
+	s.assetMutex.Lock()
+	defer s.assetMutex.Unlock()
+	s.assetInstances[id] = ai
+}
+
+func (s *State) RemoveAssetInstance(entityID uint32) {""", 'PutAssetInstance:keyed',
+    'a new exported writer stores under a caller-chosen key')
+ctl('j5-session-in-global', 'C03', 'J5', RT,
+    """	h.currentSession = session
+	h.currentParticipant = participant
+
+	h.FeatureFlags.IfNotSet(featureflag.FlagDisableSessionState, func() {""",
+    """	h.currentSession = session
+	h.currentParticipant = participant
+	lastJoinedSession = session
+
+	h.FeatureFlags.IfNotSet(featureflag.FlagDisableSessionState, func() {""", 'lastJoinedSession',
+    'a package-level variable holds a session: shared by every connection of the process',
+    edits=[dict(file=RT, old="func (h *RealtimeHandler) HandleWithModule(", new="var lastJoinedSession *models.Session\n\nfunc (h *RealtimeHandler) HandleWithModule(")])
 ctl('e7-remove-any-registered', 'C07', 'E7', SE,
     """	if registered, ok := s.sessions[id]; !ok || registered != session {""",
     """	if _, ok := s.sessions[id]; !ok {""", 'Remove:idempotent',
